@@ -18,8 +18,9 @@ CONFIGS = {
                       "material_basis": "volume", "material_unit": "cm3", "temperature_unit": "°C"},
 }
 
-# adsorption (0) / desorption (1) marks of the three abstract points: both branches, one branch only, user-assigned
-BRANCH_PATTERNS = {"two": (0, 0, 1), "all-ads": (0, 0, 0), "all-des": (1, 1, 1), "user": (1, 0, 1), "zero-start": (0, 0, 1)}
+# adsorption (0) / desorption (1) marks of the three abstract points: both branches, one branch only, user-assigned, desorption recorded
+# before adsorption (the closing point is an adsorption point)
+BRANCH_PATTERNS = {"two": (0, 0, 1), "all-ads": (0, 0, 0), "all-des": (1, 1, 1), "user": (1, 0, 1), "des-first": (1, 0, 0), "zero-start": (0, 0, 1)}
 
 ISO_CLASSES = {"point": "pygaps.core.pointisotherm.PointIsotherm", "model": "pygaps.core.modelisotherm.ModelIsotherm",
                "base": "pygaps.core.baseisotherm.BaseIsotherm"}
